@@ -10,6 +10,7 @@ use vsched::{ExecCfg, Outcome, PointKind};
 use crate::common::*;
 
 struct Dummy;
+#[cfg_attr(feature = "alt", ractor::async_trait)]
 impl Actor for Dummy {
     type Msg = u32;
     type State = ();
@@ -245,6 +246,20 @@ fn live_body(exit: Exit) -> vsched::Body {
             if snap != expect {
                 bad.push(format!("after the race the registry holds {snap:?}, expected {expect:?}"));
             }
+            #[cfg(feature = "alt")]
+            {
+                let (pids, _) = ractor::registry::pid_registry::verif_snapshot();
+                let mut expect: Vec<_> = live.iter().map(|l| l.1.get_id()).collect();
+                expect.sort();
+                if pids != expect {
+                    bad.push(format!("after the race the pid table holds {pids:?}, expected the successful spawns {expect:?} (losing and failed spawns must leave nothing)"));
+                }
+                for l in &live {
+                    if ractor::registry::where_is_pid(l.1.get_id()).map(|c| c.get_id()) != Some(l.1.get_id()) {
+                        bad.push("where_is_pid does not return a running actor".into());
+                    }
+                }
+            }
             // phase 2: the holder exits; waiter + respawn + lookups race with the exit
             if let Some((_, a, h)) = live.pop() {
                 let a_id = a.get_id();
@@ -268,10 +283,28 @@ fn live_body(exit: Exit) -> vsched::Body {
                     let r = ractor::registry::where_is("N").map(|c| c.get_id());
                     (call, vsched::ret_stamp(), r)
                 });
+                #[cfg(feature = "alt")]
+                let lk3 = vsched::spawn("lookup", async move {
+                    let call = vsched::call_stamp();
+                    let r = ractor::registry::where_is_pid(a_id).map(|c| c.get_id());
+                    (call, vsched::ret_stamp(), r)
+                });
                 vsched::quiesce();
                 let wait_ret = w.await.expect("waiter");
                 let (rcall, _rret, rres) = rs.await.expect("respawn");
                 let (lcall, _lret, lres) = lk2.await.expect("lookup2");
+                #[cfg(feature = "alt")]
+                {
+                    let (pcall, _pret, pres) = lk3.await.expect("lookup3");
+                    match pres {
+                        Some(id) if id != a_id => bad.push(format!("where_is_pid({a_id}) returned {id}")),
+                        Some(_) if pcall > wait_ret => bad.push("where_is_pid returned an actor whose wait() had already returned".into()),
+                        _ => {}
+                    }
+                    if ractor::registry::where_is_pid(a_id).is_some() {
+                        bad.push("where_is_pid still returns the actor after its wait() returned".into());
+                    }
+                }
                 let _ = h.await;
                 if lres == Some(a_id) && lcall > wait_ret {
                     bad.push("where_is returned an actor whose wait() had already returned".into());
@@ -327,10 +360,182 @@ fn live_body(exit: Exit) -> vsched::Body {
             if !residue.is_empty() {
                 bad.push(format!("names still registered after every actor stopped: {residue:?}"));
             }
+            #[cfg(feature = "alt")]
+            {
+                let (pids, listeners) = ractor::registry::pid_registry::verif_snapshot();
+                if !pids.is_empty() || !listeners.is_empty() {
+                    bad.push(format!("pids still registered after every actor stopped: {pids:?} {listeners:?}"));
+                }
+            }
             Outcome {
                 key: format!("errs={:?} look={:?}", errs.iter().map(|e| e.0).collect::<Vec<_>>(), look.2.map(|i| i.to_string())),
                 violations: bad,
             }
+        })
+    })
+}
+
+
+// ---------------------------------------------------------------------------------------------
+// cluster build ("alt" harness build): the pid table
+// ---------------------------------------------------------------------------------------------
+
+
+#[cfg(not(feature = "alt"))]
+fn pid_core_body(_lookups: usize, _named_conflict: bool) -> vsched::Body {
+    wrong_build()
+}
+
+/// A running holder H exits while a new cell X is created, `where_is_pid(H)` / `get_all_pids()` run, and
+/// (optionally) a creation fails on a name conflict after... before its pid is entered.
+#[cfg(feature = "alt")]
+fn pid_core_body(lookups: usize, named_conflict: bool) -> vsched::Body {
+    use ractor::registry::{get_all_pids, where_is_pid};
+    Arc::new(move || {
+        Box::pin(async move {
+            let (h, hp) = inspect::detached::<Dummy>(if named_conflict { Some("N".into()) } else { None }).expect("holder");
+            inspect::set_status(&h, ActorStatus::Running);
+            let hid = h.get_id();
+            let creator = vsched::spawn("spawner", async move {
+                let call = vsched::call_stamp();
+                let r = inspect::detached::<Dummy>(None);
+                let ret = vsched::ret_stamp();
+                let (c, p) = r.expect("a fresh unnamed cell always registers");
+                inspect::set_status(&c, ActorStatus::Running);
+                let seen = where_is_pid(c.get_id()).map(|x| x.get_id());
+                (call, ret, c, p, seen)
+            });
+            let loser = if named_conflict {
+                Some(vsched::spawn("spawner", async move {
+                    let call = vsched::call_stamp();
+                    let r = inspect::detached::<Dummy>(Some("N".into()));
+                    let ret = vsched::ret_stamp();
+                    (call, ret, r)
+                }))
+            } else {
+                None
+            };
+            let mut looks = Vec::new();
+            for i in 0..lookups {
+                looks.push(vsched::spawn("lookup", async move {
+                    let call = vsched::call_stamp();
+                    let one = if i % 2 == 0 { Some(where_is_pid(hid).map(|c| c.get_id())) } else { None };
+                    let all = if i % 2 == 1 { Some(get_all_pids().iter().map(|c| c.get_id()).collect::<Vec<_>>()) } else { None };
+                    let ret = vsched::ret_stamp();
+                    (call, ret, one, all)
+                }));
+            }
+            let hc = h.clone();
+            let closer = vsched::spawn("closer", async move {
+                let call = vsched::call_stamp();
+                inspect::set_status(&hc, ActorStatus::Stopping);
+                let mid = vsched::ret_stamp();
+                inspect::set_status(&hc, ActorStatus::Stopped);
+                let ret = vsched::ret_stamp();
+                (call, mid, ret)
+            });
+            vsched::quiesce();
+            let (ccall, cret, x, xp, seen) = creator.await.expect("creator");
+            let (xcall, _xmid, xret) = closer.await.expect("closer");
+            let mut bad = Vec::new();
+            let xid = x.get_id();
+            if seen != Some(xid) {
+                bad.push(format!("where_is_pid of a just created, running actor returned {seen:?}"));
+            }
+            let mut extra: Vec<ractor::ActorId> = Vec::new();
+            let mut loser_won = false;
+            let mut kept = Vec::new();
+            if let Some(l) = loser {
+                let (lcall, lret, r) = l.await.expect("loser");
+                match r {
+                    Ok((c, p)) => {
+                        // legal only once the holder began to stop
+                        if lret < xcall {
+                            bad.push("a registration of the held name succeeded while the holder was running".into());
+                        }
+                        let _ = lcall;
+                        loser_won = true;
+                        extra.push(c.get_id());
+                        inspect::set_status(&c, ActorStatus::Running);
+                        kept.push((c, p));
+                    }
+                    Err(e) => {
+                        if !format!("{e}").to_lowercase().contains("already") {
+                            bad.push(format!("losing creation failed with {e}"));
+                        }
+                    }
+                }
+            }
+            let mut keys = Vec::new();
+            for l in looks {
+                let (call, ret, one, all) = l.await.expect("lookup");
+                if let Some(one) = one {
+                    keys.push(format!("one={}", one.is_some()));
+                    match one {
+                        Some(id) => {
+                            if id != hid {
+                                bad.push(format!("where_is_pid({hid}) returned actor {id}"));
+                            }
+                            if call > xret {
+                                bad.push("where_is_pid returned an actor whose exit (and therefore wait()) had already completed".into());
+                            }
+                        }
+                        None => {
+                            if ret < xcall {
+                                bad.push("where_is_pid returned None for a running actor that had not begun to stop".into());
+                            }
+                        }
+                    }
+                }
+                if let Some(all) = all {
+                    keys.push(format!("all={}", all.len()));
+                    if all.contains(&hid) && call > xret {
+                        bad.push("get_all_pids lists an actor whose exit had already completed".into());
+                    }
+                    if !all.contains(&hid) && ret < xcall {
+                        bad.push("get_all_pids misses a running actor that had not begun to stop".into());
+                    }
+                    if !all.contains(&xid) && cret < call {
+                        bad.push("get_all_pids misses an actor whose creation had already returned".into());
+                    }
+                    if all.contains(&xid) && ret < ccall {
+                        bad.push("get_all_pids lists an actor whose creation had not begun".into());
+                    }
+                    let mut sorted = all.clone();
+                    sorted.sort();
+                    sorted.dedup();
+                    if sorted.len() != all.len() {
+                        bad.push(format!("get_all_pids lists an actor twice: {all:?}"));
+                    }
+                    for id in &all {
+                        if *id != hid && *id != xid && !(named_conflict) {
+                            bad.push(format!("get_all_pids lists unknown actor {id}"));
+                        }
+                    }
+                }
+            }
+            let (pids, listeners) = ractor::registry::pid_registry::verif_snapshot();
+            let mut expect = vec![xid];
+            expect.extend(extra.iter().copied());
+            expect.sort();
+            if pids != expect {
+                bad.push(format!("pid table holds {pids:?}, expected {expect:?} (holder {hid} exited{})", if named_conflict && !loser_won { ", a creation failed on the name conflict" } else { "" }));
+            }
+            if !listeners.is_empty() {
+                bad.push(format!("pid listeners {listeners:?}"));
+            }
+            let names = ractor::registry::verif_snapshot();
+            if named_conflict && !loser_won && !names.is_empty() {
+                bad.push(format!("names left: {names:?}"));
+            }
+            inspect::set_status(&x, ActorStatus::Stopped);
+            drop(xp);
+            drop(hp);
+            for (c, p) in kept {
+                inspect::set_status(&c, ActorStatus::Stopped);
+                drop(p);
+            }
+            Outcome { key: format!("{keys:?} loser_won={loser_won}"), violations: bad }
         })
     })
 }
@@ -361,13 +566,28 @@ pub fn plan(tier: &str) -> Plan {
     for exit in [Exit::Stop, Exit::Kill, Exit::FailedStart] {
         units.push(Unit::explore_split(Job::new(format!("live/{exit:?}"), live_cfg.clone(), Some(lb), live_body(exit)), 8));
     }
+    // the same units once more on the cluster build of the harness (pid table next to the name table),
+    // plus the pid-table cores
+    let alt_units: Vec<(String, ExecCfg, Option<usize>, vsched::Body, usize)> = vec![
+        ("alt/core/2reg+1lookup".into(), core_cfg.clone(), None, core_body(2, false, 1), 4),
+        ("alt/core/1reg+exit+1lookup".into(), core_cfg.clone(), None, core_body(1, true, 1), 4),
+        ("alt/pid/create+exit+1lookup".into(), core_cfg.clone(), None, pid_core_body(1, false), 4),
+        ("alt/pid/create+exit+2lookups".into(), core_cfg.clone(), Some(if thorough { 4 } else { 3 }), pid_core_body(2, false), 8),
+        ("alt/pid/create+conflict+exit+2lookups".into(), core_cfg.clone(), Some(if thorough { 3 } else { 2 }), pid_core_body(2, true), 16),
+        ("alt/live/Stop".into(), live_cfg.clone(), Some(lb), live_body(Exit::Stop), 8),
+        ("alt/live/Kill".into(), live_cfg.clone(), Some(lb), live_body(Exit::Kill), 8),
+        ("alt/live/FailedStart".into(), live_cfg.clone(), Some(lb), live_body(Exit::FailedStart), 8),
+    ];
+    for (name, cfg, bound, b, split) in alt_units {
+        units.push(alt_unit(name, cfg, bound, b, split));
+    }
     Plan {
         property: "C10",
         units,
-        rule: "concurrent registrations of one name, lookups, the exit path of the holder and respawns, on real cells (complete tree with sleep sets for the 3-task cores) and on real spawned actors (deviation-bounded); decision point before every DashMap, lock and atomic operation; oracle: at most one holder at any time, losers fail with ActorAlreadyRegistered and leave nothing, lookups only return a current holder and never one whose wait() returned, the name is reusable after wait(); non-trivial = execution with >= 1 branching decision".into(),
+        rule: "concurrent registrations of one name, lookups, the exit path of the holder and respawns, on real cells (complete tree with sleep sets for the 3-task cores) and on real spawned actors (deviation-bounded); decision point before every DashMap, lock and atomic operation; oracle: at most one holder at any time, losers fail with ActorAlreadyRegistered and leave nothing, lookups only return a current holder and never one whose wait() returned, the name is reusable after wait(); in the cluster build the same for where_is_pid / get_all_pids, and failed or losing spawns leave no pid; non-trivial = execution with >= 1 branching decision".into(),
         assumptions: vec![
             "sequential consistency; each DashMap access is atomic, a shard held across a scheduling point is waited for cooperatively".into(),
-            "pid registry (cluster build) is checked by the cluster harness crate".into(),
+            "the pid table only exists in ractor's cluster build: the alt/ units run on a second build of this harness (ractor features cluster + async-trait + monitors)".into(),
         ],
         engine: "vsched (shuttle coroutines + DFS with sleep sets / deviation bound) on the real ractor code",
     }
